@@ -131,6 +131,11 @@ def random_graph_jobs(rnd, n, mode, maxref=6, maxhap=4, maxlen=5, maxwalk=6, nwa
 
 def run_mode(ctx, mode):
     rnd = random.Random(ctx.seed)
+    # design check: the TLA+ model of the two conversions satisfies the C01/C02 theorems on every generator state, all offsets
+    mcfg = "CoordsModel_t.cfg" if ctx.thorough else "CoordsModel_q.cfg"
+    mr = ctx.tlc("CoordsModel", mcfg, coverage=False, timeout=1800)
+    if not mr.ok:
+        ctx.design_violation("CoordsModel", mcfg, mr)
     cfg = "Coords_t.cfg" if ctx.thorough else "Coords_q.cfg"
     states, r = gen_states(ctx, "Coords", cfg, coverage=False)
     by_graph = defaultdict(list)
